@@ -1,6 +1,7 @@
 import ParanoidModel.Driver.Common
 import ParanoidModel.Model.RsaChecks
 import ParanoidModel.Model.Patterns
+import ParanoidModel.Model.PollardFloat
 import ParanoidModel.Driver.Rng
 namespace Paranoid.Driver
 open Paranoid.Proto
@@ -55,6 +56,7 @@ def rsaCheckOps : Dispatcher := fun op args =>
   | "chk.pm1_exps", [bound] => do
       let bound ← parseOptNat? bound
       pure (fmtNatList (pollardExpsDocumented bound))
+  | "chk.pm1_float243", [] => pure (fmtNatList floatExps243)
   | "pat.periodic", [w, ps, l] => do
       let w ← parseNat? w; let ps ← parseNat? ps; let l ← parseNat? l
       pure (hexNatF (Permuted.periodicTop w ps l))
